@@ -161,6 +161,52 @@ Section Contract.
     destruct r; [apply HIE; reflexivity|apply HNE; discriminate|apply HNE; discriminate].
   Qed.
 
+  (* the repaired loop at end of stream: correct under the contract alone *)
+  Notation rloop := (decode_to_sink_repaired dstate dec maxlen).
+
+  Lemma rloop_last : forall fuel s input, (mu s input < fuel)%nat ->
+    exists s' evs, rloop fuel s input true = Done (s', evs) /\ equiv (sem s input) evs.
+  Proof.
+    induction fuel as [|f IH]; intros s input L; [lia|].
+    cbn [decode_to_sink_repaired]. cbv zeta.
+    destruct (dec s input _ true) as [[[r read] w] s1] eqn:D.
+    destruct (c_read C _ _ _ _ _ _ _ _ D) as [R1 R2].
+    destruct r.
+    - exists s1, (out_events w). split; [reflexivity|]. apply (c_last_done C _ _ _ _ _ _ D).
+    - pose proof (c_last_more C _ _ _ _ _ _ _ D ltac:(discriminate)) as M.
+      pose proof (c_progress C _ _ _ _ _ _ _ _ D ltac:(discriminate)) as P.
+      replace (length input <? read) with false by (symmetry; apply Nat.ltb_ge; lia).
+      rewrite andb_false_r.
+      destruct (IH s1 (skipn read input) ltac:(lia)) as [s2 [evs [R E]]]. rewrite R.
+      exists s2, (call_events OutputFull w ++ evs). split; [reflexivity|].
+      eapply equiv_trans; [apply M|]. apply equiv_app; [apply equiv_refl|apply E].
+    - pose proof (c_last_more C _ _ _ _ _ _ _ D ltac:(discriminate)) as M.
+      pose proof (c_progress C _ _ _ _ _ _ _ _ D ltac:(discriminate)) as P.
+      replace (length input <? read) with false by (symmetry; apply Nat.ltb_ge; lia).
+      rewrite andb_false_r.
+      destruct (IH s1 (skipn read input) ltac:(lia)) as [s2 [evs [R E]]]. rewrite R.
+      exists s2, (call_events Malformed w ++ evs). split; [reflexivity|].
+      eapply equiv_trans; [apply M|]. apply equiv_app; [apply equiv_refl|apply E].
+  Qed.
+
+  Theorem enc_run_repaired_spec : forall chunks s,
+    exists evs, enc_run_repaired dstate dec maxlen fuel_of s chunks = Done evs /\
+                equiv evs (sem s (concat chunks)).
+  Proof.
+    induction chunks as [|c cs IH]; intros s.
+    - cbn [enc_run_repaired concat]. unfold enc_finish_repaired.
+      destruct (rloop_last (fuel_of s []) s [] (fuel_ok s [])) as [s' [evs [R E]]].
+      rewrite R. exists evs. split; [reflexivity|apply equiv_sym; exact E].
+    - cbn [enc_run_repaired concat]. unfold enc_process.
+      destruct c as [|c0 c'].
+      + destruct (IH s) as [evs [R E]]. rewrite R. exists ([] ++ evs). split; [reflexivity|exact E].
+      + destruct (loop_stream (fuel_of s (c0 :: c')) s (c0 :: c') (fuel_ok s _)) as [s' [evs [R E]]].
+        rewrite R. destruct (IH s') as [evs' [R' E']]. rewrite R'.
+        exists (evs ++ evs'). split; [reflexivity|].
+        eapply equiv_trans; [|apply equiv_sym; apply E].
+        apply equiv_app; [apply equiv_refl|exact E'].
+  Qed.
+
   (* the final call, outside the finding *)
   Hypothesis NP : no_pending_after_final_malformed.
 
@@ -360,4 +406,21 @@ Theorem enc_loop_stream_chunk :
 Proof.
   intros dstate dec maxlen sem mu C fuel s input L.
   apply (loop_stream dstate dec maxlen sem mu (fun s i => S (mu s i))); auto.
+Qed.
+
+(* the minimal repair (keep calling at end of stream until InputEmpty) is
+   correct for every decoder under the contract, no exclusion needed *)
+Theorem enc_loop_repaired_correct :
+  forall (dstate : Type) dec maxlen sem mu fuel_of,
+    (forall s i, (mu s i < fuel_of s i)%nat) ->
+    contract dstate dec sem mu ->
+    forall chunks s,
+    exists evs, enc_run_repaired dstate dec maxlen fuel_of s chunks = Done evs /\
+                text evs = text (sem s (concat chunks)) /\
+                n_err evs = n_err (sem s (concat chunks)) /\
+                n_repl evs = n_repl (sem s (concat chunks)).
+Proof.
+  intros dstate dec maxlen sem mu fuel_of Hf C chunks s.
+  destruct (enc_run_repaired_spec dstate dec maxlen sem mu fuel_of Hf C chunks s) as [evs [R E]].
+  exists evs. split; [exact R|exact E].
 Qed.
